@@ -29,6 +29,8 @@ class Canon:
         self.kind, self.consts = kind, consts
         self.skeleton_ok = True
         self.why = ""
+        self.kind_init_none = False
+        self.env = {}      # scalar locals -> polynomial of their definition (lets are substituted, names never matter)
 
     # ---- leaves
     def atom(self, node, pb):
@@ -53,6 +55,8 @@ class Canon:
                 return patom(self.consts[node.id])
         if isinstance(node, ast.Attribute) and isinstance(node.value, ast.Name) and node.value.id == "StepType":
             return patom("StepType." + node.attr)
+        if isinstance(node, ast.Name) and node.id in self.env:
+            return self.env[node.id]
         return None
 
     def pb(self):
@@ -79,6 +83,14 @@ class Canon:
                 return ("RES_UNSET",)
             if self.kind == "tab" and op is ast.Lt and isinstance(r, ast.Constant) and r.value == 0 and \
                     pkey(self.pb().poly(l)) == pkey(patom("RES_COST")):
+                return ("RES_UNSET",)
+            # the kind component still holds the initial value NONE (no result triple has that kind)
+            if self.kind == "tab" and op is ast.Eq and isinstance(r, ast.Name) and self.consts.get(r.id) == "StepType.NONE" \
+                    and isinstance(l, ast.Subscript) and isinstance(l.value, ast.Name) and l.value.id == "schedule" \
+                    and isinstance(l.slice, ast.Tuple) and len(l.slice.elts) == 3 \
+                    and isinstance(l.slice.elts[2], ast.Constant) and l.slice.elts[2].value == 0 \
+                    and pkey(self.pb().poly(l.slice.elts[0])) == pkey(patom("n")) \
+                    and pkey(self.pb().poly(l.slice.elts[1])) == pkey(patom("s")) and self.kind_init_none:
                 return ("RES_UNSET",)
             if op in OPN:
                 # normalise to  (op, left - right)  with op in {<, <=, ==, !=}
@@ -131,12 +143,87 @@ class Canon:
                     else:
                         out.append(("store", key, self.triple(s.value)))
                 elif isinstance(t, ast.Name):
-                    out.append(("let", t.id, self.expr(s.value)))
+                    self.env[t.id] = self.pb().poly(s.value)
                 else:
                     self.skeleton_ok, self.why = False, f"unrecognised store {ast.unparse(s)}"
             else:
                 self.skeleton_ok, self.why = False, f"unrecognised statement {type(s).__name__}"
         return tuple(out)
+
+
+class _Ren(ast.NodeTransformer):
+    def __init__(self, m):
+        self.m = m
+
+    def visit_Name(self, n):
+        return ast.copy_location(ast.Name(self.m.get(n.id, n.id), n.ctx), n)
+
+    def visit_arg(self, n):
+        n.arg = self.m.get(n.arg, n.arg)
+        return n
+
+
+def normalise_memo(fn):
+    """the memoised planner with canonical names: parameters n, s; result variable m; candidate index i"""
+    fn = copy.deepcopy(fn)
+    ren = {}
+    params = [a.arg for a in fn.args.args]
+    if len(params) == 2:
+        ren[params[0]], ren[params[1]] = "n", "s"
+    res = None
+    for x in ast.walk(fn):
+        if isinstance(x, ast.Return) and isinstance(x.value, ast.Name):
+            res = x.value.id
+    if res:
+        ren[res] = "m"
+    loops = [x for x in ast.walk(fn) if isinstance(x, ast.For) and isinstance(x.target, ast.Name)]
+    if len(loops) == 1:
+        ren[loops[0].target.id] = "i"
+    clash = (set(ren.values()) - set(ren)) & {x.id for x in ast.walk(fn) if isinstance(x, ast.Name)}
+    if clash:
+        return None
+    return _Ren(ren).visit(fn)
+
+
+def normalise_tab(fn):
+    """the tabulated planner with canonical names: parameters n, s; table `schedule`; loop variables s_i (columns),
+    n_i (rows), i (candidates) - identified by the positions they index in the result store"""
+    fn = copy.deepcopy(fn)
+    ren = {}
+    params = [a.arg for a in fn.args.args]
+    if len(params) == 2:
+        ren[params[0]], ren[params[1]] = "n", "s"
+    tabv = None
+    for x in fn.body:
+        if isinstance(x, ast.Return) and isinstance(x.value, ast.Name):
+            tabv = x.value.id
+    if tabv is None:
+        return None
+    ren[tabv] = "schedule"
+    fn = _Ren(ren).visit(fn)
+    # loop variables, one loop nest at a time (the prelude and the core may or may not share names)
+    for top in [x for x in fn.body if isinstance(x, ast.For) and isinstance(x.target, ast.Name)]:
+        stores = [t for x in ast.walk(top) if isinstance(x, ast.Assign) for t in x.targets
+                  if isinstance(t, ast.Subscript) and isinstance(t.value, ast.Name) and t.value.id == "schedule"
+                  and isinstance(t.slice, ast.Tuple) and len(t.slice.elts) == 3 and isinstance(t.slice.elts[2], ast.Slice)]
+        if not stores:
+            continue
+        row, col = stores[0].slice.elts[0], stores[0].slice.elts[1]
+        m = {}
+        if isinstance(col, ast.Name):
+            m[col.id] = "s_i"
+        if isinstance(row, ast.Name):
+            m[row.id] = "n_i"
+        inner = [x for x in ast.walk(top) if isinstance(x, ast.For) and isinstance(x.target, ast.Name)
+                 and x.target.id not in m and x is not top]
+        for x in inner:
+            m[x.target.id] = "i"
+        keep = {k: v for k, v in m.items() if k != v}
+        used = {x.id for x in ast.walk(top) if isinstance(x, ast.Name)}
+        if (set(keep.values()) - set(keep)) & used:
+            return None
+        _Ren(keep).visit(top)
+    return fn
 
 
 def show(x, depth=0):
@@ -202,6 +289,17 @@ def run(chk, ctx):
         chk.decide("C16.REC", f"mixed.{name}", True if val == want else False,
                    f"{name} = int({val})" + ("" if val == want else f": named after {want}"), rel=REL, node=mod, nontrivial=False)
     cm, ct = Canon("memo", consts), Canon("tab", consts)
+    memo_n, tab_n = normalise_memo(memo), normalise_tab(tab)
+    if memo_n is None or tab_n is None:
+        chk.decide("C16.REC", f"mixed.{TAB}#shape", None, "planner names cannot be brought to the canonical form (name clash)",
+                   rel=REL, node=tab)
+        return
+    memo, tab = memo_n, tab_n
+    # the kind component of every entry is initialised to NONE (makes `kind == NONE` an unset test)
+    for x in tab.body:
+        if isinstance(x, ast.Assign) and isinstance(x.targets[0], ast.Subscript) and isinstance(x.value, ast.Name) \
+                and consts.get(x.value.id) == "StepType.NONE" and ast.unparse(x.targets[0]).replace(" ", "") == "schedule[:,:,0]":
+            ct.kind_init_none = True
     # memo: the if-chain after the validation guards
     mbody = cm.stmts(memo.body)
     # tab: row-1 prelude + innermost n_i loop body
@@ -303,6 +401,34 @@ def run(chk, ctx):
                    f"memoised arm {ast.unparse(calls[0])[:90]} / table arm {ast.unparse(subs[0])[:90]}: "
                    + ("equal arguments and targets" if same_args and same_tgt else
                       ("arguments differ" if not same_args else "targets differ")), rel=rel_i, node=n)
+    # second form: one local bound either to the memoised planner or to a nested function that looks the same
+    # arguments up in the table; every consultation then passes one argument list to whichever is bound
+    tables = {t.id for x in ast.walk(it_fn) if isinstance(x, ast.Assign) and isinstance(x.value, ast.Call)
+              and getattr(x.value.func, "id", None) == TAB for t in x.targets if isinstance(t, ast.Name)}
+    memo_names = {t.id for x in ast.walk(it_fn) if isinstance(x, ast.Assign) and isinstance(x.value, ast.Name)
+                  and x.value.id == MEMO for t in x.targets if isinstance(t, ast.Name)}
+    for d in [x for x in ast.walk(it_fn) if isinstance(x, ast.FunctionDef) and x is not it_fn and x.name in memo_names]:
+        params = [a.arg for a in d.args.args]
+        body = [b for b in d.body if not (isinstance(b, ast.Expr) and isinstance(b.value, ast.Constant))]
+        cons = f"mixed.{owner.name}._iterator#dispatch[{d.name}]"
+        ok = None
+        if len(body) == 1 and isinstance(body[0], ast.Return) and isinstance(body[0].value, ast.Subscript) \
+                and isinstance(body[0].value.value, ast.Name) and body[0].value.value.id in tables \
+                and not d.args.defaults and not d.args.kwonlyargs and not d.args.vararg:
+            sl = body[0].value.slice
+            idx = [ast.unparse(e) for e in (sl.elts if isinstance(sl, ast.Tuple) else [sl])]
+            ok = True if idx == params else (False if sorted(idx) == sorted(params) else None)
+        direct = [x for x in ast.walk(it_fn) if (isinstance(x, ast.Call) and getattr(x.func, "id", None) == MEMO)
+                  or (isinstance(x, ast.Subscript) and isinstance(x.value, ast.Name) and x.value.id in tables
+                      and not any(x is y for y in ast.walk(d)))]
+        if ok is True and direct:
+            ok = None
+        k += 1
+        chk.decide("C16.ARMS", cons, ok,
+                   f"`{d.name}` is bound to {MEMO} or to a nested function returning {ast.unparse(body[0].value) if len(body) == 1 and isinstance(body[0], ast.Return) else '?'} "
+                   f"of its parameters {params}: " + ("both arms receive the arguments of the one call site, in the same order" if ok else
+                                                      ("the table arm permutes the arguments" if ok is False else "form not recognised")),
+                   rel=rel_i, node=d)
     if k < 1:
         chk.decide("C16.ARMS", f"mixed.{owner.name}._iterator#selection", None, "no selection site found", rel=rel_i, node=it_fn)
     # the table is built for (max_n, snapshots) of the instance
@@ -312,14 +438,71 @@ def run(chk, ctx):
             ok = args == ["self._max_n", "self._snapshots"]
             chk.decide("C16.ARMS", f"mixed.{owner.name}._iterator#table-size", True if ok else None,
                        f"table built as {TAB}({', '.join(args)})", rel=rel_i, node=n, nontrivial=False)
-    # ---- COST (information)
+    # ---- COST (information): optimal_steps_mixed minimises over the same candidate costs
     osm = repo.func(REL, "optimal_steps_mixed", required=False)
     if osm is not None:
         chk.functions.add("mixed.optimal_steps_mixed")
-        src = ast.unparse(osm)
-        pieces = ["n * (n + 1) // 2 - 1", "optimal_steps_mixed(n - 1, s - 1)", "optimal_steps_mixed(i, s)",
-                  "optimal_steps_mixed(n - i, s - 1)", "range(2, n)"]
-        ok = all(p in src for p in pieces)
-        chk.decide("C16.COST", "mixed.optimal_steps_mixed", True if ok else None,
-                   "same cost recurrence pieces as the planners" if ok else "cost recurrence pieces not recognised (information only)",
-                   rel=REL, node=osm, nontrivial=False)
+
+        def cost_atom(fname):
+            def atom(node, pb):
+                if isinstance(node, ast.Subscript) and isinstance(node.value, ast.Call) and getattr(node.value.func, "id", None) == fname \
+                        and len(node.value.args) == 2:
+                    node = node.value
+                if isinstance(node, ast.Call) and getattr(node.func, "id", None) == fname and len(node.args) == 2:
+                    return patom(("COST", pkey(pb.poly(node.args[0])), pkey(pb.poly(node.args[1]))))
+                return None
+            return atom
+        osm_n = normalise_memo(osm)
+        got = set()
+        if osm_n is not None:
+            pbo = PolyBuilder(cost_atom("optimal_steps_mixed"))
+            for x in ast.walk(osm_n):
+                vals = []
+                if isinstance(x, ast.Return) and x.value is not None and not (isinstance(x.value, ast.Name) and x.value.id == "m"):
+                    vals = [x.value]
+                elif isinstance(x, ast.Assign):
+                    vals = [x.value]
+                for v in vals:
+                    if isinstance(v, ast.Call) and getattr(v.func, "id", None) == "min":
+                        vals += [a for a in v.args if not isinstance(a, ast.Name)]
+                        continue
+                    try:
+                        got.add(pkey(pbo.poly(v)))
+                    except Exception:
+                        pass
+        want = set()
+        memo_c = normalise_memo(repo.func(REL, MEMO))
+        if memo_c is not None:
+            cmc = Canon("memo", consts)
+            cmc.stmts(memo_c.body)
+            env_vals = set()
+
+            n_key = pkey(patom("n"))
+
+            def triples(x, n_is=None):
+                if isinstance(x, tuple):
+                    if x and x[0] == "triple":
+                        c = x[3]
+                        # under the guard n == c the constant cost c is the value of n
+                        if n_is is not None and c == pkey(pconst(n_is)):
+                            c = n_key
+                        want.add(c)
+                    if x and x[0] == "if" and len(x) == 4 and x[1] and x[1][0] == "==":
+                        d = dict(x[1][1])
+                        if set(d) == {(), ("n",)} and d[("n",)] == 1:
+                            triples(x[2], int(-d[()]))
+                            triples(x[3], n_is)
+                            return
+                    for y in x:
+                        triples(y, n_is)
+            triples(cmc.stmts(memo_c.body))
+        ok = bool(want) and want <= got
+        import os
+        if os.environ.get("VERIF_DEBUG"):
+            print("COST want-got", [pstr(dict(w)) for w in want - got], "got", [pstr(dict(g)) for g in got])
+        if ok:
+            chk.decide("C16.COST", "mixed.optimal_steps_mixed", True,
+                       f"every candidate cost of the memoised planner ({len(want)}) is a candidate of optimal_steps_mixed", rel=REL, node=osm,
+                       nontrivial=False)
+        else:
+            chk.note("C16.COST (information only): the candidate costs of optimal_steps_mixed were not matched with those of the planners")
